@@ -199,6 +199,23 @@ def check_handler_records_failure(eng: Engine, fn: FuncInfo, v: Verdict, handler
         p = cfg.find_path(h, targets, avoid=fail_nodes)
         if p is not None:
             return ("a path from the handler to the next combination records nothing", cfg.describe_path(p))
+    # the counted total must not be taken back on the handler path
+    if v.kind == "COUNT":
+        tamper = {n.id for n in cfg.nodes if n.kind == "stmt" and n.ast is not None and (
+            (isinstance(n.ast, ast.AugAssign) and isinstance(n.ast.target, ast.Name) and n.ast.target.id == v.total and not isinstance(n.ast.op, ast.Add))
+            or (isinstance(n.ast, ast.Assign) and any(isinstance(t, ast.Name) and t.id == v.total for t in n.ast.targets)))}
+        r0 = cfg.reach([h], avoid=targets) & tamper
+        if r0:
+            p = cfg.find_path(h, r0, avoid=targets)
+            return ("the handler path takes the combination out of the total again", cfg.describe_path(p) if p else [])
+    if v.kind == "ALL1":
+        tamper = {n.id for n in cfg.nodes if n.kind == "stmt" and n.ast is not None and any(
+            isinstance(c, ast.Call) and isinstance(c.func, ast.Attribute) and c.func.attr in ("pop", "remove", "clear") and isinstance(c.func.value, ast.Name) and c.func.value.id == v.lst
+            for c in ast.walk(n.ast))}
+        r0 = cfg.reach([h], avoid=targets) & tamper
+        if r0:
+            p = cfg.find_path(h, r0, avoid=targets)
+            return ("the handler path removes recorded values again", cfg.describe_path(p) if p else [])
     # a success update reachable from the handler before the next iteration
     reach = cfg.reach([h], avoid=targets)
     bad = reach & succ_nodes
